@@ -10,6 +10,9 @@ CHECKS = {
  "C02": ("Generated-input search: random register-language configurations x typed program bodies x 8 register valuations; the emitted raw instructions are executed by an independent register machine (M-machine) and compared with truth's reference interpreter on the flattened source (call log with bit-exact arguments and real times, final time, final registers).",
          "Trusts AstVm as the source-side reference (named by the property) and the harness's own M-machine/M-ops. Programs bounded (<= ~30 statements, depth 3); time labels non-decreasing; NaN/inf and out-of-range float->int casts excluded.",
          "property-based differential testing against an independent machine model (proptest)"),
+ "C04": ("Texts = valid generated sources for ANM / STD / MSG / END / mission / pre-TH10 ECL | full-grammar random programs | programs nested up to 256 deep | bundled .spec files | short raw byte strings, after 0..4 token-level mutations (delete / duplicate / swap / move / class-preserving replacement / insertion from a vocabulary of keywords, operators, extreme literals, malformed strings, pseudo-arguments, labels / wrapping in up to 256 parens, unary operators, brackets, braces) and byte-level mutations (invalid UTF-8, NUL, BOM, truncation), compiled by the same or another tool and game; and mapfiles (built-in tables or generated languages rendered as text, mutated per line with signature / intrinsic / key / section vocabularies) loaded from disk before compiling a valid source. Ok must come without error diagnostics, Err with at least one; a panic (incl. a diagnostic that fails to render), abort, stack overflow or allocation request > 2 GiB is a violation.",
+         "In-process mirror of the CLI compile commands (files.rs) on an 8 MiB stack like the CLI's main thread. A hang (60 s watchdog) is reported as inconclusive.",
+         "grammar-based and mutation-based fuzzing with a crash / diagnostic-consistency oracle (proptest-driven)"),
  "C05": ("Generated-input search over configurations with scratch pools of 0..4 registers per type and an optional anti-scratch instruction; invariants checked on every successful compile from the debug-info bindings and the decoded register operands: general-use, unmentioned (generator's knowledge of every mention), no sharing between locals with overlapping lexical scope, no unknown register in the output; required rejections (anti-scratch, pool exhaustion) must carry an error diagnostic.",
          "Temp x temp liveness is not observable without a hook (left to C02's behavioural check). Lexical scopes are recovered from the generator's own printing conventions.",
          "property-based testing with an invariant oracle over the compile result"),
